@@ -361,7 +361,8 @@ Definition m_text_content_mut (st : xstate) (n : N) (s : str) : xstate * mout :=
         let '(st2, o) := m_append st1 n t in
         match o with
         | MDone _ => match q_first_child st2 n with
-                     | Some c => (set_value st2 c (fun _ => VText s), MDone None)
+                     | Some c => if is_type st2 c TText then (set_value st2 c (fun _ => VText s), MDone None)
+                                 else (st2, MDone None)                    (* text_mut(child) = None *)
                      | None => (st2, MPanic)
                      end
         | _ => (st2, MPanic)
